@@ -78,6 +78,16 @@ def gen(ctx):
     # corpus: shapes that exposed defects or are easy to get wrong
     for abbr, exp in [('a>b^^^^c', [(0, 'a'), (1, 'b'), (0, 'c')])]:
         pass
+    # lorem nodes are text nodes: no tag of their own (the implicit tag of the parent when repeated below the top level);
+    # their children and siblings keep their place.  Runs under the deterministic randint oracle (markup_util.impl_expand),
+    # the model gets the same draws (run_cases).
+    for abbr, exp in [('p>lorem2+b', [(0, 'p'), (1, 'b')]), ('ul>lorem2*2', [(0, 'ul'), (1, 'li'), (1, 'li')]),
+                      ('div>lorem3>b', [(0, 'div'), (1, 'b')]), ('lorem2+p>em', [(0, 'p'), (1, 'em')]),
+                      ('ol>lorem1*2>b^p^q', [(0, 'ol'), (1, 'li'), (2, 'b'), (1, 'li'), (2, 'b'), (1, 'p'), (0, 'q')]),
+                      ('(p>lorem2)*2+a', [(0, 'p'), (0, 'p'), (0, 'a')]), ('table>tr>lorem1*2', [(0, 'table'), (1, 'tr'), (2, 'td'), (2, 'td')])]:
+        for cfg in CONFIGS[:2]:
+            cases.append((abbr, cfg, exp))
+            ctx.cover('C01:lorem')
     # exhaustive operator skeletons
     max_units = 3 if ctx.tier == 'quick' else 4
     for n in range(1, max_units + 1):
